@@ -425,10 +425,18 @@ def replay(cex):
             if out.shape != (n, m):
                 return {"reproduced": True, "signature": "shape", "detail": f"output shape {out.shape} != {(n, m)}"}
             S = X[:, sens]
-            cov = (S - S.mean(axis=0)).T @ (out - out.mean(axis=0))
+            Sc, Oc = S - S.mean(axis=0), out - out.mean(axis=0)
+            cov = Sc.T @ Oc
             worst = float(np.abs(cov).max())
-            return {"reproduced": bool(worst > 1e-8 * scale), "signature": f"cov_zero:{sig}",
-                    "detail": f"max |cov(sensitive, output)| = {worst:.6g} on X={X.tolist()} sens={sens}"}
+            # the property is about CORRELATION: a sensitive column with a tiny (but real, i.e. far above float noise) spread must be removed too,
+            # although its covariance with anything is tiny in absolute terms
+            ns, no = np.sqrt((Sc ** 2).sum(axis=0)), np.sqrt((Oc ** 2).sum(axis=0))
+            real_s = ns > 1e-12 * np.maximum(1.0, np.abs(S).max(axis=0))
+            real_o = no > 1e-12 * np.maximum(1.0, np.abs(out).max(axis=0))
+            corr = np.where(np.outer(real_s, real_o), np.abs(cov) / np.maximum(np.outer(ns, no), 1e-300), 0.0)
+            worst_corr = float(corr.max()) if corr.size else 0.0
+            return {"reproduced": bool(worst > 1e-8 * scale or worst_corr > 1e-6), "signature": f"cov_zero:{sig}",
+                    "detail": f"max |cov(sensitive, output)| = {worst:.6g}, max |corr| = {worst_corr:.6g} on X={X.tolist()} sens={sens}"}
         cr = CorrelationRemover(sensitive_feature_ids=ids, alpha=alpha).fit(wrap(X))
         D = X if ob == "blend_fit_data" else X2
         out = np.asarray(cr.transform(wrap(D)))
